@@ -169,8 +169,8 @@ func runOne(ctx context.Context, sp solverSpec, file string, timeoutS int) solve
 		ans = "unsat"
 	case first == "sat":
 		ans = "sat"
-	case first == "timeout" || cctx.Err() != nil:
-		ans = "timeout"
+	case first == "timeout" || cctx.Err() != nil || strings.Contains(s, "interrupted by timeout"):
+		ans = "timeout" // cvc5 prints "unknown" plus "cvc5 interrupted by timeout."
 	case strings.Contains(first, "error") || strings.HasPrefix(first, "(error"):
 		ans = "error"
 	}
